@@ -88,14 +88,14 @@ def code_for_number_token(name, value, location):"""),
                 else:
                     self.rejected_rows_count += 1"""),
     ("rows: reset through check names", "cutplace/validio.py",
-     """        self.accepted_rows_count = 0
-        self.rejected_rows_count = 0
+     """        self._location = errors.Location(self._source_path, has_cell=True)
         for check in self.cid.check_map.values():
-            check.reset()""",
-     """        self.accepted_rows_count = 0
-        self.rejected_rows_count = 0
+            check.reset()
+        header_row_count""",
+     """        self._location = errors.Location(self._source_path, has_cell=True)
         for check_name in self.cid.check_names:
-            self.cid.check_map[check_name].reset()"""),
+            self.cid.check_map[check_name].reset()
+        header_row_count"""),
     ("validate_row: single count test", "cutplace/validio.py",
      """        if actual_item_count < self._expected_item_count:
             raise errors.DataError(
@@ -121,18 +121,18 @@ def code_for_number_token(name, value, location):"""),
                 for check_name in self.cid.check_names:
                     self.cid.check_map[check_name].check_at_end(self.location)
             finally:
+                self._is_closed = True
                 for check in self.cid.check_map.values():
-                    check.cleanup()
-            self._is_closed = True""",
+                    check.cleanup()""",
      """        if self._is_closed:
             return
         try:
             for check_name in self.cid.check_names:
                 self.cid.check_map[check_name].check_at_end(self.location)
         finally:
+            self._is_closed = True
             for check in self.cid.check_map.values():
-                check.cleanup()
-        self._is_closed = True"""),
+                check.cleanup()"""),
     ("Range.validate: for loop with break", "cutplace/ranges.py",
      """            is_valid = False
             item_index = 0
@@ -200,6 +200,9 @@ def code_for_number_token(name, value, location):"""),
             possibly_stripped_value = value.strip()
         else:
             possibly_stripped_value = value
+        if possibly_stripped_value:
+            # NOTE: A fixed value consisting only of blanks is empty, even if blanks are no allowed characters.
+            self.validate_characters(value)
         self.validate_empty(possibly_stripped_value)
         self.validate_length(value)
         if possibly_stripped_value:
@@ -209,6 +212,8 @@ def code_for_number_token(name, value, location):"""),
         return result""",
      """        is_fixed = self.data_format.format == data.FORMAT_FIXED
         actual_value = value.strip() if is_fixed else value
+        if actual_value:
+            self.validate_characters(value)
         self.validate_empty(actual_value)
         self.validate_length(value)
         if not actual_value:
@@ -395,8 +400,8 @@ BREAKING = [
      "        # Validate each field according to its format.\n        for field_index, field_value in enumerate(row):",
      "        for check_name in self.cid.check_names:\n            self.cid.check_map[check_name].check_row(_create_field_map(self.cid.field_names, row), self.location)\n        # Validate each field according to its format.\n        for field_index, field_value in enumerate(row):", ["C04", "C20", "C05"]),
     ("close: cleanup skipped after a failing end check", "cutplace/validio.py",
-     "            try:\n                for check_name in self.cid.check_names:\n                    self.cid.check_map[check_name].check_at_end(self.location)\n            finally:\n                for check in self.cid.check_map.values():\n                    check.cleanup()",
-     "            for check_name in self.cid.check_names:\n                self.cid.check_map[check_name].check_at_end(self.location)\n            for check in self.cid.check_map.values():\n                check.cleanup()", ["C20"]),
+     "            try:\n                for check_name in self.cid.check_names:\n                    self.cid.check_map[check_name].check_at_end(self.location)\n            finally:\n                self._is_closed = True\n                for check in self.cid.check_map.values():\n                    check.cleanup()",
+     "            for check_name in self.cid.check_names:\n                self.cid.check_map[check_name].check_at_end(self.location)\n            self._is_closed = True\n            for check in self.cid.check_map.values():\n                check.cleanup()", ["C20"]),
     ("validated: length guard before the character guard skipped for fixed", "cutplace/fields.py",
      "        self.validate_length(value)\n        if possibly_stripped_value:",
      "        if self.data_format.format != data.FORMAT_FIXED:\n            self.validate_length(value)\n        if possibly_stripped_value:", ["C03", "C20"]),
@@ -431,12 +436,53 @@ BREAKING = [
      "                elif row_type != \"\":\n                    # Raise error when value is not supported.\n                    raise errors.InterfaceError(",
      "                elif row_type == \"?\":\n                    # Raise error when value is not supported.\n                    raise errors.InterfaceError(", ["C09"]),
     ("RegEx: broken expression no longer converted", "cutplace/fields.py",
-     "        except (re.error, OverflowError) as error:\n            raise errors.InterfaceError(\n                \"rule must be a valid regular expression",
-     "        except (re.error, OverflowError) as error:\n            raise ValueError(\n                \"rule must be a valid regular expression", ["C10"]),
+     "        except (re.error, OverflowError, ValueError) as error:\n            raise errors.InterfaceError(\n                \"rule must be a valid regular expression",
+     "        except (re.error, OverflowError, ValueError) as error:\n            raise KeyError(\n                \"rule must be a valid regular expression", ["C10"]),
+    # --- reverts of the repairs made after round 5 (each must be reported again)
+    ("fixed_rows: path opened without newline=''", "cutplace/rowio.py",
+     '        fixed_file = io.open(fixed_source, "r", newline="", encoding=encoding)', '        fixed_file = io.open(fixed_source, "r", encoding=encoding)', ["C13", "C14"]),
+    ("ods: rows in row groups skipped again", "cutplace/rowio.py",
+     '("table-header-rows", "table-rows", "table-row-group")', '("table-header-rows", "table-rows")', ["C15"]),
+    ("ods: covered cells ignored again", "cutplace/rowio.py",
+     '("table-cell", "covered-table-cell")', '("table-cell",)', ["C15"]),
+    ("readers: only UnicodeDecodeError converted", "cutplace/rowio.py",
+     "        except (csv.Error, UnicodeError) as error:", "        except (csv.Error, UnicodeDecodeError) as error:", ["C10"]),
+    ("DecimalRange: only NaN refused", "cutplace/ranges.py",
+     "        if not value_as_decimal.is_finite():", "        if value_as_decimal.is_nan():", ["C02"]),
+    ("__exit__: end checks replace the pending error", "cutplace/validio.py",
+     "            try:\n                self.close()\n            except errors.CheckError:\n                pass", "            self.close()", ["C06", "C18"]),
+    ("close: closed flag only after successful end checks", "cutplace/validio.py",
+     "            finally:\n                self._is_closed = True\n                for check in self.cid.check_map.values():\n                    check.cleanup()",
+     "            finally:\n                for check in self.cid.check_map.values():\n                    check.cleanup()\n            self._is_closed = True", ["C20"]),
+    ("rows: location kept for a second pass", "cutplace/validio.py",
+     "        self._location = errors.Location(self._source_path, has_cell=True)\n        for check in self.cid.check_map.values():",
+     "        for check in self.cid.check_map.values():", ["C04"]),
+    ("csv error: line after the broken one", "cutplace/rowio.py",
+     "    if line_number > 1:\n        location.advance_line(line_number - 1)", "    if line_number > 0:\n        location.advance_line(line_number)", ["C04"]),
+    ("check row: cells not stripped", "cutplace/interface.py",
+     "check_description, check_type, check_rule = [item.strip() for item in (items + 3 * [\"\"])[:3]]",
+     "check_description, check_type, check_rule = (items + 3 * [\"\"])[:3]", ["C09"]),
+    ("field row after a check row accepted", "cutplace/interface.py",
+     "        if self._check_names:\n            raise errors.InterfaceError(\"fields must be specified before first check\", self._location)\n", "", ["C09"]),
+    ("Decimal: foreign decimal point passed on", "cutplace/fields.py",
+     "            elif character_to_process == \".\":", "            elif character_to_process == \"\\0\":", ["C02"]),
+    ("validated: characters checked before the emptiness test", "cutplace/fields.py",
+     "        if possibly_stripped_value:\n            # NOTE: A fixed value consisting only of blanks is empty, even if blanks are no allowed characters.\n            self.validate_characters(value)",
+     "        self.validate_characters(value)", ["C03"]),
+    ("command line: empty file names accepted", "cutplace/applications.py",
+     "        if (args.cid_path == \"\") or (\"\" in (args.data_paths or [])):", "        if False:", ["C18"]),
+    ("plugins: folder used as pattern", "cutplace/interface.py",
+     "os.path.join(glob.escape(folder_to_scan_for_plugins), \"*.py\")", "os.path.join(folder_to_scan_for_plugins, \"*.py\")", ["C20"]),
+    ("xlsx writer: error code ignored", "cutplace/rowio.py",
+     "            if (error_code is not None) and (error_code < 0):", "            if False:", ["C16"]),
+    ("class maps: direct subclasses only", "cutplace/interface.py",
+     "                    classes_to_scan_for_subclasses.append(subclass)", "                    pass", ["C20"]),
+    ("encoding: only looked up", "cutplace/data.py",
+     "                \"\".encode(value)\n            except (LookupError, ValueError):", "                codecs.lookup(value)\n            except LookupError:", ["C11", "C10"]),
     ("DateTime: re.error of a repeated place holder escapes again", "cutplace/fields.py",
      "        except (ValueError, re.error):", "        except ValueError:", ["C10"]),
     ("RegEx: OverflowError of a huge repetition count escapes again", "cutplace/fields.py",
-     "        except (re.error, OverflowError) as error:", "        except re.error as error:", ["C10"]),
+     "        except (re.error, OverflowError, ValueError) as error:", "        except re.error as error:", ["C10"]),
     ("Decimal: thousands separator accepted after the decimal separator", "cutplace/fields.py",
      "            elif self.thousands_separator and (character_to_process == self.thousands_separator):\n                if found_decimal_separator:",
      "            elif self.thousands_separator and (character_to_process == self.thousands_separator):\n                if False:", ["C02"]),
